@@ -278,6 +278,64 @@ theorem C12_directive_order :
       "internal", "templates", "proxy"] Casket.Generated.directives = true := by
   decide
 
+/-! ### the site as it is written (several lines per directive, scopes, outputs, order)
+
+`Site` is the configuration line by line; `siteServe` runs the chain in terms of the rule lists the
+directives' setup functions build from those lines (first matching log rule / gzip config /
+templates rule, one merged errors handler); `Site.cfg s path` is its meaning for a request path.
+The stream writes the lines into a Casketfile and loads it with the real loader. -/
+
+/-- `templates` renders this request on this site -/
+abbrev siteTplOn (s : Site) (path : String) (r : Req) : Bool := (tplRuleFor s.templates path).isSome && r.html
+
+/-- However the site is written — any number of lines per directive, any scopes, outputs,
+formats, levels, in any order —, the judged predicate holds of the response to every request and
+every behaviour satisfying the handler contract. -/
+theorem C12_site_good (s : Site) (path : String) (r : Req) (n : Nat) (i : Inner) (hok : Inner.ok i = true) :
+    good (siteTplOn s path r) s.errMode i (siteServe s path r n i) = true := by
+  have h := C12_good (s.cfg path) r n i hok
+  rw [site_effectiveErrors] at h
+  rw [siteServe_eq]; exact h
+
+/-- … and so does what the driver applies to the implementation's answers (judge and theorem are one spec). -/
+theorem C12_site_model_verdict_ok (s : Site) (path : String) (r : Req) (n : Nat) (i : Inner) (hok : Inner.ok i = true) :
+    verdict r.head ((s.cfg path).templates && r.html) (effectiveErrors (s.cfg path)) i (siteServeWire s path r n i) = "ok" := by
+  rw [siteServeWire_eq]; exact C12_model_verdict_ok (s.cfg path) r n i hok
+
+/-- Every spelling of the same meaning gives the same answer: the response depends on the lines
+written only through what they mean for the request path. -/
+theorem C12_spelling_irrelevant (s s' : Site) (path : String) (r : Req) (n : Nat) (i : Inner)
+    (h : s.cfg path = s'.cfg path) : siteServe s path r n i = siteServe s' path r n i := by
+  rw [siteServe_eq, siteServe_eq, h]
+
+/-- What the `log` lines mean for a request: `log` acts on it iff the scope of SOME line matches
+its path — not how many lines there are, which outputs they name (the same one or different
+ones), which formats, or in which order they are written. -/
+theorem C12_log_lines_meaning (s : Site) (path : String) :
+    (s.cfg path).log = s.log.any fun l => pathMatches path (l.scope.getD "/") :=
+  site_log_meaning s.log path
+
+/-- log's setup starts the logger of EVERY entry of every rule, also of a second entry that
+names an output an earlier line named already. -/
+theorem C12_log_entries_all_started (lines : List LogLine) (r : LogRule) (h : r ∈ logSetup lines) :
+    r.entries.all (·.started) = true :=
+  logSetup_started lines r h
+
+/-- … `templates` and `gzip`: the first rule / config that lets the request through decides, so
+they act iff some line does. -/
+theorem C12_templates_lines_meaning (s : Site) (path : String) :
+    (s.cfg path).templates = s.templates.any fun t => pathMatches path t.path :=
+  tplRuleFor_isSome s.templates path
+
+/-- the error-status clause on a site as written: exactly one response with that status and one
+acceptable error body, whatever lines the wrappers are configured with -/
+theorem C12_site_error_status (s : Site) (path : String) (r : Req) (n : Nat) (st : Nat) (e : Bool) (hs : st ≥ 400) :
+    (siteServe s path r n (.ret st e)).commits = 1 ∧ (siteServe s path r n (.ret st e)).status = st ∧
+    ∃ ch, chunks (siteServe s path r n (.ret st e)) = [ch] ∧ errorBodyOK s.errMode st e ch = true := by
+  have h := C12_error_status_gets_error_body (s.cfg path) r n st e hs
+  rw [site_effectiveErrors] at h
+  rw [siteServe_eq]; exact h
+
 /-! Non-vacuity and tests on literals. -/
 
 def full : Cfg := { log := true, gzip := true, header := true, errors := some .page404, templates := true }
@@ -360,5 +418,40 @@ example :
     good true none (.write (some 200) [1, 2, 3] false .tplExec true)
       { commits := 1, status := 500, body := [(.errText 500, false)], cl := none, live := none } = true := by
   decide
+
+/-- the seeded scenario C12-log-same-output-started-once as written: `log /api access.log "{combined}"`
+followed by `log / access.log` — two rules, one output -/
+def twoLogs : Site :=
+  { log := [⟨some "/api", "a", some "{combined}"⟩, ⟨some "/", "a", none⟩], gzip := [], header := [], errors := [],
+    templates := [] }
+
+/-- test: a request under the second rule that ends in (404, nil) gets one 404 with one error body;
+the same site written with one line, or with the lines for two different outputs, answers the same -/
+example : siteServe twoLogs "/x.html" ⟨true, false, false⟩ 0 (.ret 404 false) =
+      { commits := 1, status := 404, body := [(.errText 404, false)], cl := none, live := none } ∧
+    twoLogs.cfg "/x.html" = { twoLogs with log := [⟨none, "b", none⟩] }.cfg "/x.html" ∧
+    (twoLogs.cfg "/x.html").log = true ∧ (twoLogs.cfg "/api/x.html").log = true ∧
+    ({ twoLogs with log := [⟨some "/api", "a", none⟩] }.cfg "/x.html").log = false := by decide
+
+/-- test (`C12_log_entries_all_started` is what the response relies on): under a rule whose second
+entry was NOT started the handler's error response would be followed by a panic in the log
+middleware — Server.ServeHTTP's fallback then hits the committed response a second time and
+appends a second error body -/
+example :
+    let rule : LogRule := ⟨"/", [⟨"a", "{common}", true⟩, ⟨"a", "{common}", false⟩]⟩
+    runOps (serverW (logRuleW (some rule) (Inner.ret 404 false).beh)) =
+      { commits := 2, status := 404, body := [(.errText 404, false), (.errText 500, false)], cl := none, live := none } ∧
+    good false none (.ret 404 false) (runOps (serverW (logRuleW (some rule) (Inner.ret 404 false).beh))) = false := by decide
+
+/-- test: the meaning depends on the request path — `gzip { not /x }` then `gzip { level 9 }`:
+the second config compresses /x.html; alone, the first does not; `templates /f-` leaves /x.html alone -/
+example :
+    let s : Site := { log := [], gzip := [⟨["/x"], none⟩, ⟨[], some 9⟩], header := [⟨"/api", 1⟩], errors := [⟨.visible, []⟩, ⟨.visible, []⟩],
+                      templates := [⟨"/F-"⟩] }
+    (s.cfg "/x.html").gzip = true ∧ ({ s with gzip := [⟨["/x"], none⟩] }.cfg "/x.html").gzip = false ∧
+    ({ s with gzip := [⟨["/x"], none⟩] }.cfg "/f-tok.html").gzip = true ∧ (s.cfg "/x.html").header = true ∧
+    (s.cfg "/x.html").templates = false ∧ (s.cfg "/f-tok.html").templates = true ∧ s.errMode = some .visible ∧
+    { s with errors := [] }.errMode = some .plain ∧ { s with errors := [], gzip := [] }.errMode = none ∧
+    { s with errors := [⟨.logFile "a", []⟩, ⟨.none, [404]⟩] }.errMode = some .page404 := by decide
 
 end Casket.Props.C12
